@@ -96,6 +96,9 @@ type Class struct {
 	// NeedsCLI: the class drives the command-line tool (cmd/wazero), which the driver builds from the
 	// repository under check and announces in VERIF_WAZERO_CLI.
 	NeedsCLI bool `json:"needs_cli,omitempty"`
+	// NeedsPIEWorker: the driver also builds the worker as a position-independent executable
+	// (VERIF_PIE_WORKER) for checks that compare the output of differently laid out binaries.
+	NeedsPIEWorker bool `json:"needs_pie_worker,omitempty"`
 	// Instrumented: needs the instrumented copy of the repository.
 	Instrumented bool `json:"instrumented,omitempty"`
 	// ExpectDeath: sacrificial class – every run is expected to kill the
